@@ -13,6 +13,8 @@ NEUTRALS = []
 
 # changes made by sub-agents that were given only the property text (see /verif/seeded/<id>/): each must stay reported
 SEEDED = [
+    {'name': 'seeded change C19-r5b', 'seed': 'C19-r5b', 'expect': '|RX-number|'},
+    {'name': 'seeded change C19-r5a', 'seed': 'C19-r5a', 'expect': '|ORDER-sib|'},
     {'name': 'seeded change C19-r4b', 'seed': 'C19-r4b', 'expect': '|DEAD-KEY|'},
     {'name': 'seeded change C19-r3', 'seed': 'C19-r3', 'expect': '|DIVS-lcm|'},
     {'name': 'seeded change C19-r2', 'seed': 'C19-r2', 'expect': '|ITER-local|'},
